@@ -476,6 +476,24 @@ func classList(e ast.Expr) ([]string, bool) {
 	return out, true
 }
 
+// wantField reads the string field of a matcher literal that failAt reports (`want` of a
+// litMatcher, `val` of a charClassMatcher).  A field that is missing or not a string literal is
+// an explicit unknown entry.
+func wantField(r *goReader, f map[string]ast.Expr, name string) (string, bool) {
+	v, ok := f[name]
+	if !ok {
+		return "unknown:matcher literal has no " + name + " field", true
+	}
+	if s, ok := stringLit(v); ok {
+		return s, true
+	}
+	lo, hi := r.fset.Position(v.Pos()).Offset, r.fset.Position(v.End()).Offset
+	if lo >= 0 && hi >= lo && hi <= len(r.src) {
+		return "unknown:" + string(r.src[lo:hi]), true
+	}
+	return "unknown:unreadable " + name + " field", true
+}
+
 func (r *goReader) readExpr(e ast.Expr) *expr {
 	cl, typ, ok := compositeOf(e)
 	if !ok {
@@ -588,6 +606,7 @@ func (r *goReader) readExpr(e ast.Expr) *expr {
 				return bad("unreadable ignoreCase")
 			}
 		}
+		x.want, x.hasWant = wantField(r, f, "want")
 		return x
 
 	case "charClassMatcher":
@@ -617,6 +636,7 @@ func (r *goReader) readExpr(e ast.Expr) *expr {
 				return bad("unreadable inverted")
 			}
 		}
+		x.want, x.hasWant = wantField(r, f, "val")
 		return x
 
 	case "andExpr":
